@@ -25,7 +25,7 @@ EXPLANATION = (
     'sqrt(2 snr) r sin(half the angular step) with r and the step read from _createConstellation; BPSK arg = '
     'sqrt(2 snr) d for the literal +-d table. Not decided: values in [0,1], monotonicity, limits, the neighbour '
     'multiplicities (real analysis of erfc compositions).'
-    ' General rules also applied here (see DESIGN 10.5): input immutability (no in-place modification of an array argument, alias- and view-aware).')
+    ' General rules also applied here (see DESIGN 10.5): input immutability (no in-place modification of an array argument, alias- and view-aware). C16.e: a class that overrides the BER curve keeps BER <= SER <= log2(M) BER against its own SER curve (a*Q(x) forms).')
 
 
 def _self_atom(meth: str, *args: T.Term) -> T.Term:
